@@ -27,7 +27,7 @@ theorem isNullN_iff {e : Bool} {n : Node} (h : Inv e n) : isNullN n = true ↔ d
   | docNil => exact absurd h (Inv_docNil e)
   | nilAry => exact absurd h (Inv_nilAry e)
 
-theorem eqv_null_left (b : Value) : Value.eqv .null b = b.isNull := by
+theorem eqv_null_left_isNull (b : Value) : Value.eqv .null b = b.isNull := by
   cases b <;> simp [Value.eqv, Value.isNull]
 theorem eqv_null_right (a : Value) : Value.eqv a .null = a.isNull := by
   cases a <;> simp [Value.eqv, Value.isNull]
@@ -43,7 +43,7 @@ theorem testEq_null_right (a : Value) :
 
 theorem testEq_null_left (b : Value) :
     Spec.testEq .null b = if b.isNull then .ok () else .fail .testUnequal := by
-  simp only [Spec.testEq, eqv_null_left, numEqv_null_left]
+  simp only [Spec.testEq, eqv_null_left_isNull, numEqv_null_left]
   cases b.isNull <;> simp
 
 /-- `equalTo` against `testEq` -/
